@@ -296,7 +296,8 @@ theorem identity_update (c : Text) (subst : List (Nat × Nat)) (moves : List Mov
     `toLineAttrs (update [Equal c] … P) c = toLineAttrs P c`.  It is false in two regions,
     witnessed below and replayed on the real code (known findings): zero-length priors
     (deletion markers are dropped by the Equal branch) and two authors sharing a timestamp on
-    one line (update re-sorts by author, the first-on-tie winner flips). -/
+    one line (update re-sorts by author, the first-on-tie winner flips); a third region keeps
+    the authors but changes the `overrode` field (read from the last candidate in list order). -/
 theorem identity_keeps_lines_partial (c : Text) (subst : List (Nat × Nat)) (moves : List Move)
     (P : List Attr) (author : Str) (ts : Nat) (hP : Tame c.length P)
     (hnorm : merge (normalizeOld P) = P) :
@@ -336,8 +337,21 @@ theorem witness_identity_ts_tie :
       = .ok [⟨0, 3, ['a'], 1⟩, ⟨0, 3, ['b'], 1⟩] ∧
     toLineAttrs [⟨0, 3, ['a'], 1⟩, ⟨0, 3, ['b'], 1⟩] [97, 98, 10] = .ok [⟨1, 1, ['a'], none⟩] := by decide
 
+/-- excluded region 3 (known finding `identity:overrode-depends-on-prior-order`): three priors
+    on the same range with distinct timestamps; the dominant author `b` is kept, but `overrode`
+    is read from the LAST AI / human candidate in list order, and the update re-sorts the
+    list by author: `overrode = a` becomes `none`. -/
+theorem witness_identity_overrode_order :
+    toLineAttrs [⟨0, 3, ['b'], 6⟩, ⟨0, 3, ['a'], 0⟩, ⟨0, 3, human, 5⟩] [97, 98, 10]
+      = .ok [⟨1, 1, ['b'], some ['a']⟩] ∧
+    update [⟨.equal, [97, 98, 10]⟩] [] [] [⟨0, 3, ['b'], 6⟩, ⟨0, 3, ['a'], 0⟩, ⟨0, 3, human, 5⟩] ['z'] 9
+      = .ok [⟨0, 3, ['a'], 0⟩, ⟨0, 3, ['b'], 6⟩, ⟨0, 3, human, 5⟩] ∧
+    toLineAttrs [⟨0, 3, ['a'], 0⟩, ⟨0, 3, ['b'], 6⟩, ⟨0, 3, human, 5⟩] [97, 98, 10]
+      = .ok [⟨1, 1, ['b'], none⟩] := by decide
+
 end GitAi.Tracker
 
+#print axioms GitAi.Tracker.witness_identity_overrode_order
 #print axioms GitAi.Tracker.on_boundaries
 #print axioms GitAi.Tracker.witness_target_off_boundary
 #print axioms GitAi.Tracker.whitespace_reformat_keeps_lines_partial
